@@ -102,3 +102,72 @@ def mirrored(sc):
     b["rows"] = sorted(b["rows"], key=lambda r: r["t"]) if False else b["rows"]   # simulation order is already the same
     b["ref"] = m(sc["ref"]) if sc["hasref"] else sc["ref"]
     return b, axis
+
+
+# ------------------------------------------------------------------------------------------------ restart (C08)
+def restart_family(sc):
+    """Run the uninterrupted split run, then warm-start a new run from every completed output file.
+    The restarted run's LadimTrace set-up is initialised from the uninterrupted run's own recorded history."""
+    import glob
+    import os
+    import re
+    import shutil
+    from . import tlc
+    keep = tlc.scratch("lv_c08_")
+    try:
+        base = dict(sc["base"], keep_output=keep)
+        ta = run_e2e(base)
+        ladim = [ta]
+        pair = [dict(ev="setup", kinds=["restart"]), dict(ev="runA", **flatten(ta))]
+        fe = next((e for e in ta if e["ev"] == "files"), None)
+        if fe is None:
+            return dict(ladim=ladim, pair=pair, nrestarts=0)
+        # output history of A: (step, snapshot) at every due output call
+        outs = [e for e in ta if e["ev"] == "output" and e["step"] % base["ops"] == 0]
+        nrec = 0
+        n = 0
+        for f in fe["files"][: sc.get("max_restarts", 4)]:
+            nrec += len(f["recs"])
+            if base["numrec"] == 0 or len(f["recs"]) < base["numrec"]:
+                continue                                   # not a *completed* file of a split run
+            o = outs[nrec - 1]
+            rstep = o["step"]
+            rtime = sim2t(base, rstep)
+            nsteps_left = abs(base["stop"] - rtime) // base["dt"]
+            if nsteps_left < 1:
+                continue
+            snap = o["snap"]
+            alive = [i for i, a in enumerate(snap["alive"]) if a]
+            parts = [dict(pid=snap["pid"][i], x=snap["x"][i], y=snap["y"][i], z=snap["z"][i], alive=True, active=True,
+                          farm=snap["farm"][i], age=snap["age"][i]) for i in alive]
+            npid = snap["npid"]
+            born = [dict(rt=f["pv_release_time"][p], src=f["pv_src"][p]) for p in range(min(npid, len(f["pv_src"])))]
+            src = os.path.join(keep, "out_%03d.nc" % f["idx"])
+            b = dict(sc["base"])
+            b.pop("keep_output", None)
+            b["start"] = rtime
+            b["kill"] = [[s - rstep, p] for s, p in base["kill"] if s - rstep >= 0]
+            b["killfarm"] = [[s - rstep, p] for s, p in base.get("killfarm", []) if s - rstep >= 0]
+            b["freeze"] = []
+            b["extra_files"] = {"restart_in.nc": src}
+            b["warm"] = dict(name="restart_in.nc", idx=f["idx"], init=dict(parts=parts, npid=npid, born=born))
+            b["outname"] = "out_%03d.nc" % (f["idx"] + 1)
+            tb = run_e2e(b)
+            ladim.append(tb)
+            pair.append(dict(ev="runB", kind="restart", astart=base["start"], astop=base["stop"], adt=base["dt"], restart_time=rtime if not base["rev"] else -rtime,
+                             fromidx=f["idx"], **_signed(flatten(tb), base["rev"])))
+            n += 1
+        if base["rev"]:
+            pair[1] = dict(ev="runA", **_signed(flatten(ta), True))
+        return dict(ladim=ladim, pair=pair, nrestarts=n)
+    finally:
+        shutil.rmtree(keep, ignore_errors=True)
+
+
+def _signed(run, rev):
+    """for reversed runs compare in simulation order: negate the record times (pure re-indexing)"""
+    if not rev:
+        return run
+    r = dict(run)
+    r["recs"] = [dict(rec, time=-rec["time"]) for rec in run["recs"]]
+    return r
